@@ -272,7 +272,7 @@ Obs == [pre     |-> View(Replay(last'.logpre)),
         logpre  |-> last'.logpre,
         logpost |-> log',
         gone    |-> last'.gonepre,
-        readable |-> TRUE, listshow |-> TRUE, faithful |-> TRUE, hidden |-> <<>>,
+        readable |-> TRUE, listshow |-> TRUE, faithful |-> TRUE, hidden |-> <<>>, rows |-> <<>>,
         out     |-> [json |-> TRUE, values |-> 1, trailing |-> FALSE, stderr |-> last'.exit # 0,
                      idshape |-> TRUE]]
 
